@@ -1,5 +1,103 @@
-From RsM Require Import Lib.MachInt Model.Acl Model.AclSpec Model.Im Model.ImSpec Props.C06.
+(** Statement pins for C06: the headline theorems must have exactly these
+    types, so they cannot be weakened silently. *)
+From RsM Require Import Lib.MachInt Model.Acl Model.AclSpec Model.Im Model.ImSpec.
+From RsM Require Import Proofs.ImExpand Proofs.ImRun Proofs.ImSound Proofs.ImTheorems Proofs.ImResume Props.C06.
 Open Scope N_scope.
+
+Check (C06_request_exact :
+  forall (fabs : list fabric) (who : accessor) (op : operation) (timed : bool)
+         (flt : N -> N -> N -> bool) (ff : bool) (nd : node),
+  wf_fabrics fabs = true -> wf_node nd = true ->
+  forall (items : list item) (fuel : nat),
+  (length (request_spec nd fabs who op timed flt items) < fuel)%nat ->
+  expand_all fuel (mkEnv op who timed flt) ff (mkCfg nd fabs) [] items
+  = RunDone (request_spec nd fabs who op timed flt items)
+            (calls_of who op ff (request_spec nd fabs who op timed flt items))).
+Check (C06_wildcard_exact :
+  forall (fabs : list fabric) (who : accessor) (op : operation) (timed : bool)
+         (flt : N -> N -> N -> bool) (ff : bool) (nd : node) (it : item) (fuel : nat),
+  wf_fabrics fabs = true -> wf_node nd = true ->
+  is_wildcard (it_path it) = true ->
+  is_read op = true \/ (is_some (p_cl (it_path it)) = true /\ is_some (p_leaf (it_path it)) = true) ->
+  (length (served nd fabs who op timed flt (it_path it)) < fuel)%nat ->
+  expand_all fuel (mkEnv op who timed flt) ff (mkCfg nd fabs) [] [it]
+  = RunDone (map (out_of (it_tag it)) (served nd fabs who op timed flt (it_path it)))
+            (calls_of who op ff (map (out_of (it_tag it)) (served nd fabs who op timed flt (it_path it))))).
+Check (C06_served_unfiltered :
+  forall (nd : node) (fabs : list fabric) (who : accessor) (op : operation) (timed : bool) (p : gpath),
+  served nd fabs who op timed (fun _ _ _ => true) p = permitted nd fabs who op timed p).
+Check (C06_concrete_status :
+  forall (fabs : list fabric) (who : accessor) (op : operation) (timed : bool)
+         (flt : N -> N -> N -> bool) (ff : bool) (nd : node) (e c l : N) (tag : option N) (fuel : nat),
+  wf_fabrics fabs = true -> wf_node nd = true -> (1 < fuel)%nat ->
+  expand_all fuel (mkEnv op who timed flt) ff (mkCfg nd fabs) []
+             [mkItem (mkPath (Some e) (Some c) (Some l)) tag]
+  = match concrete_decision nd fabs who op timed flt e c l with
+    | Served t => RunDone [out_of tag t] (calls_of who op ff [out_of tag t])
+    | Refused s => RunDone [OStatus (mkPath (Some e) (Some c) (Some l)) tag s] []
+    | Silent => RunDone [] []
+    end).
+Check (C06_concrete_served_permitted :
+  forall (nd : node) (fabs : list fabric) (who : accessor) (op : operation) (timed : bool)
+         (flt : N -> N -> N -> bool) (e c l : N) (t : cand),
+  concrete_decision nd fabs who op timed flt e c l = Served t ->
+  In t (all_leaves op nd) /\ cand_ids t = (e, c, l)
+  /\ permitted_leaf fabs who op timed t = true /\ flt e c l = true).
+Check (C06_served_permitted :
+  forall (nd : node) (fabs : list fabric) (who : accessor) (op : operation) (timed : bool)
+         (flt : N -> N -> N -> bool) (items : list item) (e c l : N) (tag : option N),
+  In (OData e c l tag) (request_spec nd fabs who op timed flt items) ->
+  exists it t, In it items /\ In t (all_leaves op nd) /\ cand_ids t = (e, c, l)
+               /\ matches (it_path it) t = true /\ permitted_leaf fabs who op timed t = true).
+Check (C06_engine_exact :
+  forall (fuel max_paths : nat) (who : accessor) (nd : node) (fabs : list fabric) (rq : imreq),
+  wf_node nd = true -> wf_fabrics fabs = true ->
+  (length (spec_outs nd fabs who rq) < fuel)%nat ->
+  im_handle fuel max_paths who (mkCfg nd fabs) [] rq = spec_response max_paths who nd fabs rq).
 Check (C06_timed_gate :
   forall (win : option N) (flag : bool) (elapsed : N),
   timed_gate win flag elapsed = gate_spec win flag elapsed).
+Check (C06_timed_window :
+  forall (fuel max_paths : nat) (who : accessor) (c0 : config) (sw : list (nat * config))
+         (rq : imreq) (outs : list out) (log : list hcall),
+  im_handle fuel max_paths who c0 sw rq = RespItems outs log -> rq_op rq <> Read ->
+  rq_flag rq = is_some (rq_win rq)
+  /\ (rq_flag rq = true -> window_open (rq_win rq) (rq_elapsed rq) = true)).
+Check (C06_timed_only :
+  forall (fabs : list fabric) (who : accessor) (op : operation) (timed : bool) (t : cand),
+  permitted_leaf fabs who op timed t = true -> op <> Read ->
+  timed_only (l_access (snd t)) = true -> timed = true).
+Check (C06_fabric_scoped :
+  forall (fabs : list fabric) (who : accessor) (timed : bool) (t : cand),
+  permitted_leaf fabs who Invoke timed t = true ->
+  fabric_scoped (l_access (snd t)) = true -> a_fab who <> 0).
+Check (C06_fabric_sensitive :
+  forall (who : accessor) (op : operation) (ff : bool) (outs : list out) (h : hcall),
+  In h (calls_of who op ff outs) ->
+  hcall_fabric h = a_fab who /\
+  (forall e c l f b, h = HRead e c l f b -> b = ff)).
+Check (C06_resume_sound :
+  forall (fuel max_paths : nat) (who : accessor) (c0 : config) (sw : list (nat * config))
+         (rq : imreq) (outs : list out) (log : list hcall),
+  forallb cfg_wf (c0 :: map snd sw) = true ->
+  im_handle fuel max_paths who c0 sw rq = RespItems outs log ->
+  served_sound c0 sw who (rq_op rq) (run_timed rq) 0 None outs = true
+  /\ log = calls_of who (rq_op rq) (rq_ff rq) outs).
+Check (C06_monitor_sound :
+  forall (max_paths : nat) (who : accessor) (nd : node) (fabs : list fabric) (rq : imreq) (resp : imresp),
+  wf_node nd = true -> wf_fabrics fabs = true ->
+  holds max_paths who (mkCfg nd fabs) [] rq resp = true ->
+  resp = spec_response max_paths who nd fabs rq).
+Check (C06_resume_stable :
+  forall (fabs : list fabric) (who : accessor) (op : operation) (timed : bool)
+         (flt : N -> N -> N -> bool) (path : gpath) (fam : endpoint -> Prop)
+         (nodes : list node) (ys : list (N * N * N)),
+  wf_fabrics fabs = true -> is_wildcard path = true -> path_ok (mkEnv op who timed flt) path ->
+  (forall e e', fam e -> fam e' -> ep_id e = ep_id e' -> e = e') ->
+  (forall nd, In nd nodes -> good fam nd) ->
+  drain (mkEnv op who timed flt) fabs path nodes (fresh None) ys ->
+  Forall2 (fun nd y => exists t, cand_ids t = y /\ In t (served nd fabs who op timed flt path))
+          (firstn (length ys) nodes) ys
+  /\ NoDup ys
+  /\ (forall t, (forall nd, In nd nodes -> In t (served nd fabs who op timed flt path)) ->
+                In (cand_ids t) ys)).
